@@ -5,7 +5,7 @@ import ast
 import os
 from typing import Any, Dict, List, Optional, Tuple
 
-from fjsa.flow import FuncFlow, call_args, guards_of, same, txt
+from fjsa.flow import bound_args, FuncFlow, call_args, guards_of, same, txt
 from fjsa.model import FuncInfo
 from fjsa.report import Check
 from fjsa.rules.constfold import ConstFolder, UNKNOWN, Unknown
@@ -48,15 +48,16 @@ def model_roles(repo, md: FuncInfo):
   firsts, seconds, oovs, eoss = [], [], [], []
   for _, c in ff.calls():
     if isinstance(c.func, ast.Attribute) and txt(c.func.value) == 'metrics' and c.func.attr.startswith('Sequence'):
-      for kw in c.keywords:
-        if kw.arg == 'masked_target_values' and isinstance(kw.value, ast.Tuple) and kw.value.elts:
-          firsts.append(kw.value.elts[0])
-          if len(kw.value.elts) > 1:
-            seconds.append(kw.value.elts[1])
-        if kw.arg == 'oov_target_values' and isinstance(kw.value, ast.Tuple) and kw.value.elts:
-          oovs.append(kw.value.elts[0])
-        if kw.arg == 'eos_target_value':
-          eoss.append(kw.value)
+      from fjsa.flow import bound_args
+      for arg, value in bound_args(ff, c).items():
+        if arg == 'masked_target_values' and isinstance(value, ast.Tuple) and value.elts:
+          firsts.append(value.elts[0])
+          if len(value.elts) > 1:
+            seconds.append(value.elts[1])
+        if arg == 'oov_target_values' and isinstance(value, ast.Tuple) and value.elts:
+          oovs.append(value.elts[0])
+        if arg == 'eos_target_value':
+          eoss.append(value)
   def common(nodes, what):
     names = [n.id for n in nodes if isinstance(n, ast.Name)]
     if len(names) != len(nodes):
@@ -408,10 +409,10 @@ def _tasks(check: Check):
           f = txt(c.func)
           if f.startswith('datasets.') and f.endswith('.load_data'):
             ds_name = f.split('.')[1]
-            ds_kw = {k.arg: txt(k.value) for k in c.keywords}
+            ds_kw = {k: txt(v) for k, v in bound_args(ff, c).items()}
           if f.startswith('models.') and '.create_' in f:
             md_name = f.split('.')[1]
-            md_kw = {k.arg: txt(k.value) for k in c.keywords}
+            md_kw = {k: txt(v) for k, v in bound_args(ff, c).items()}
     if ds_name is None or md_name is None:
       continue
     n += 1
